@@ -69,6 +69,13 @@ def cohort(rng, n_ind=None, n_feat=None, max_visits=8, missing="mcar", events=Fa
         df["ID"] = df["ID"].map(lambda i: f"{i + 1:0{width}d}")
     elif id_style == "int":
         df["ID"] = df["ID"] + 1
+    elif id_style == "shuffled":
+        # order of first appearance differs from every sorted order ("S2" before "S10" before "S1"): not for the joint model, whose
+        # data-driven initialisation mis-aligns events when IDs are not sorted (outside the properties, see DESIGN C14 note)
+        lab = rng.permutation(n_ind * 3)[:n_ind] + 1
+        if n_ind >= 2 and list(map(str, lab)) == sorted(map(str, lab)):
+            lab = lab[::-1]
+        df["ID"] = df["ID"].map(lambda i: f"S{int(lab[i])}")
     if events:
         last = df.groupby("ID")["TIME"].transform("max")
         ids = df["ID"].unique()
